@@ -96,7 +96,7 @@ func VerifC03_HookView() {
 	// (and a second, namespaced, child resource)
 	scope := verifC03Pick("scope", 3)
 	finalizing := false
-	if rt.Tier() > 0 {
+	if rt.Tier() > 0 && scope == 0 {
 		finalizing = rt.Bool("finalizing")
 	}
 
@@ -132,7 +132,11 @@ func VerifC03_HookView() {
 	var objs []*verifC03Obj
 	var cache1, cache2 []*unstructured.Unstructured
 	for i := 0; i < n1; i++ {
-		x := &verifC03Obj{kind: verifC03Pick("kind"+verifC03Num[i], verifC03Kinds), name: "c" + verifC03Num[i]}
+		kinds := verifC03Kinds
+		if i == 2 {
+			kinds = verifC03Foreign + 1 // the third object (thorough tier): ownership x matching only
+		}
+		x := &verifC03Obj{kind: verifC03Pick("kind"+verifC03Num[i], kinds), name: "c" + verifC03Num[i]}
 		switch scope {
 		case 0:
 			x.ns = "ns"
